@@ -216,9 +216,18 @@ func (idx *timeSeriesIndex) GC(gcTimestamp int64) {
 // NumOfSeries returns number of active time series.
 func (idx *timeSeriesIndex) NumOfSeries() int {
 	idx.lock.RLock()
-	defer idx.lock.RUnlock()
-
-	return idx.ids.Size()
+	size := idx.ids.Size()
+	idx.lock.RUnlock()
+	if size > 0 {
+		return size
+	}
+	// NOTE: time series is indexed async(index worker), memory time series id which is generated by writer but not
+	// indexed yet is active too, else index database removes(Cleanup) the index which writer/index worker are using.
+	idx.hashes.Range(func(_, _ any) bool {
+		size++
+		return true
+	})
+	return size
 }
 
 // ClearTimeRange clears family level time slot range.
